@@ -28,6 +28,17 @@ META = {"level": "other", "rule": "path grammars of reader/writer pairs; dataflo
         "explanation": "Reader/writer agreement is decided structurally for all values at once; value equality is not decided."}
 
 
+def const_val(b, o):
+    v = op_int(o)
+    if v is not None:
+        return v
+    k = o.get("k") if isinstance(o, dict) else None
+    if k and k.get("v") is not None:
+        return k["v"]
+    import grammar
+    return grammar.const_arg(b, o)
+
+
 def grammar_term(b, t):
     import grammar
     return grammar.term_of(b, t)
@@ -58,8 +69,10 @@ def run(ctx, rep):
     for m in ("checked_add_assign", "checked_mul"):
         bs = [b for b in F.bodies if b.promoted is None and b.path == "<metadata::BlockBits as bitstream_io::write::Counter>::" + m]
         for b in bs:
-            cl = F.closures_of(b)
-            le = [1 for c in cl for bl in c.blocks for s in bl["s"] if s["rv"]["r"] == "bin" and s["rv"]["op"] == "Le"]
+            cl = [b] + F.closures_of(b)
+            mxb = st.get("metadata::BlockBits::MAX", {}).get("v")
+            le = [1 for c in cl for bl in c.blocks for s in bl["s"] if s["rv"]["r"] == "bin" and ((s["rv"]["op"] == "Le" and const_val(c, s["rv"]["b"]) == mxb) or (s["rv"]["op"] == "Lt" and const_val(c, s["rv"]["b"]) == (mxb or 0) + 1) or
+                                                                                                  (s["rv"]["op"] == "Gt" and const_val(c, s["rv"]["b"]) == mxb) or (s["rv"]["op"] == "Ge" and const_val(c, s["rv"]["a"]) == mxb))]
             rep.check("C11.size", "BlockBits::%s refuses counts above the 24-bit byte limit" % m, len(le) == 1, loc_of(b))
         if not bs:
             rep.bad("C11.size", "anchor:BlockBits::" + m, "", "not found")
@@ -92,31 +105,37 @@ def run(ctx, rep):
                         good = len(pk) == 1 and re.search(r"Peekable::<I>::peek$", callee_name(pk[0])) is not None
         rep.check("C11.frame", "writer: a block is flagged last exactly when no block follows (peek().is_none())", good, loc_of(il), "",
                   "the last-block flag written into the block headers is not `no further block follows`: readers stop early or run into the audio frames")
-    rb = F.body("metadata::BlockIterator::<R>::read_block::{closure#0}::{closure#0}")
-    if rb is None:
-        rep.bad("C11.frame", "anchor:BlockIterator::read_block closure", "", "not found")
+    rb0 = F.body("metadata::BlockIterator::<R>::read_block")
+    if rb0 is None:
+        rep.bad("C11.frame", "anchor:BlockIterator::read_block", "", "not found")
     else:
+        def all_cl3(b0):
+            out = []
+            for c in F.closures_of(b0):
+                out.append(c)
+                out += all_cl3(c)
+            return out
+        regb = [rb0] + [c for c in F.closures_of(rb0) if "LimitedReader" not in c.path]
         stores = []
-        for bi, bl in enumerate(rb.blocks):
-            for st_ in bl["s"]:
-                if st_["d"]["p"]:
-                    cs = capture_source(F, rb, st_["d"])
-                    if cs and cs[1] and "finished" in place_fields(cs[1]):
-                        rp = root_place(rb, st_["rv"]["o"]) if st_["rv"]["r"] == "use" else None
-                        stores.append((bi, st_, rp is not None and place_fields(rp)[-1:] == ["last"]))
-        rep.check("C11.frame", "reader: iteration stops after the block whose header has the last flag (finished = header.last)", len(stores) == 1 and stores[0][2], loc_of(rb), "",
-                  "BlockIterator's `finished` is not taken from the block header's last flag")
-        pf = ok.path_facts(rb)
         n_ok = 0
-        for bi, bl in enumerate(rb.blocks):
-            for st_ in bl["s"]:
-                rv = st_["rv"]
-                if st_["d"]["l"] == 0 and not st_["d"]["p"] and rv["r"] == "agg" and rv.get("var") == "Ok":
-                    n_ok += 1
-                    f = pf.get(bi) or frozenset()
-                    good = any(x[0] == "cmp" and x[1] == "Eq" and "const:0" in (x[2], x[3]) and "field:size" in (x[2], x[3]) for x in f)
-                    rep.check("C11.frame", "reader: a block is returned only if its parser consumed exactly the declared size (remaining == 0)", good, rb.loc(st_["sp"]), "",
-                              "a block is accepted although bytes of its declared size were left unread: the next header is read from the wrong offset; facts: %s" % fact_str(f))
+        for rb in regb:
+            pf = ok.path_facts(rb)
+            for bi, bl in enumerate(rb.blocks):
+                for st_ in bl["s"]:
+                    if st_["d"]["p"]:
+                        cs = capture_source(F, rb, st_["d"])
+                        if cs and cs[1] and "finished" in place_fields(cs[1]):
+                            rp = root_place(rb, st_["rv"]["o"]) if st_["rv"]["r"] == "use" else None
+                            stores.append((bi, st_, rp is not None and place_fields(rp)[-1:] == ["last"]))
+                    rv = st_["rv"]
+                    if st_["d"]["l"] == 0 and not st_["d"]["p"] and rv["r"] == "agg" and rv.get("var") == "Ok" and "metadata::Block" in rb.locals[0]["ty"] and "Option" not in rb.locals[0]["ty"].split("Result")[0]:
+                        n_ok += 1
+                        f = pf.get(bi) or frozenset()
+                        good = any(x[0] == "cmp" and x[1] == "Eq" and "const:0" in (x[2], x[3]) for x in f)
+                        rep.check("C11.frame", "reader: a block is returned only if its parser consumed exactly the declared size (remaining == 0)", good, rb.loc(st_["sp"]), "",
+                                  "a block is accepted although bytes of its declared size were left unread: the next header is read from the wrong offset; facts: %s" % fact_str(f))
+        rep.check("C11.frame", "reader: iteration stops after the block whose header has the last flag (finished = header.last)", len(stores) == 1 and stores[0][2], loc_of(rb0), "",
+                  "BlockIterator's `finished` is not taken from the block header's last flag")
         rep.floor("C11.frame", "block-accepting exits", n_ok, 1)
     lr = [b for b in F.bodies if b.promoted is None and b.kind != "Closure" and b.path.endswith("read_block::LimitedReader<R> as std::io::Read>::read")]
     for b in lr:
@@ -204,25 +223,37 @@ def run(ctx, rep):
             rep.bad("C11.uniq", "anchor:" + fn_path, "", "not found")
             continue
         n = 0
+        errs_ = set(pairs_expected.values())
+
+        def kind_facts(f):
+            return frozenset((x[1], str(x[2])) for x in (f or []) if x[0] == "is" and x[1] in ("SeekTable", "VorbisComment", "Picture", "Png32x32", "GeneralFileIcon"))
+        set_sites = {}
         for b in region(F, bs[0]):
             pf = ok.path_facts(b)
             for bi, bl in enumerate(b.blocks):
                 for s in bl["s"]:
-                    if s["rv"]["r"] == "use" and op_int(s["rv"]["o"]) == 1 and s["d"]["p"]:
+                    if s["rv"]["r"] == "use" and op_int(s["rv"]["o"]) == 1 and s["d"]["p"] and b.local_ty(s["d"]["l"]).replace("&mut ", "").replace("&", "") in ("bool",) or \
+                            (s["rv"]["r"] == "use" and op_int(s["rv"]["o"]) == 1 and s["d"]["p"] and place_fields(s["d"]) and b.path.startswith("<metadata::BlockIterator")):
                         name = ok.desc_place(b, s["d"])
                         flag = name.split(":")[-1]
-                        if flag not in pairs_expected:
-                            continue
-                        n += 1
                         f = pf.get(bi, TOP)
+                        kf = kind_facts(f)
+                        if not kf:
+                            continue        # not a per-block-type flag (tag_read, streaminfo_read, failed, finished ...)
+                        n += 1
                         tested = any(x[0] == "flag" and x[1] is False and x[2].split(":")[-1] == flag for x in (f or []))
-                        rep.check("C11.uniq", "%s: %s is set on the path where %s was found unset" % (strip_generics(fn_path) or fn_path, flag, flag), tested, b.loc(s["sp"]), "",
+                        set_sites[flag] = kf
+                        rep.check("C11.uniq", "%s: a single-instance flag is set on the path where that same flag was found unset" % (strip_generics(fn_path) or fn_path), tested, b.loc(s["sp"]), flag,
                                   "flag %s is set on a path that tested another flag: single-instance tracking of reader and writer disagree; facts: %s" % (flag, fact_str(f)))
-            for flag, err in pairs_expected.items():
+        for b in region(F, bs[0]):
+            pf = ok.path_facts(b)
+            for err in sorted(errs_):
                 for bi, s in agg_sites(b, "Error", err):
                     f = pf.get(bi, TOP)
-                    tested = any(x[0] == "flag" and x[1] is True and x[2].split(":")[-1] == flag for x in (f or []))
-                    rep.check("C11.uniq", "%s: Error::%s raised where %s was already set" % (strip_generics(fn_path) or fn_path, err, flag), tested, b.loc(s["sp"]), "", "facts: %s" % fact_str(f))
+                    held = [x[2].split(":")[-1] for x in (f or []) if x[0] == "flag" and x[1] is True]
+                    kf = kind_facts(f)
+                    tested = any(h in set_sites and (set_sites[h] == kf or not kf) for h in held)
+                    rep.check("C11.uniq", "%s: Error::%s raised where the flag of that block kind was already set" % (strip_generics(fn_path) or fn_path, err), tested, b.loc(s["sp"]), str(held), "facts: %s" % fact_str(f))
         rep.floor("C11.uniq", "flag updates in %s" % fn_path, n, 4)
     for err in list(pairs_expected.values()) + ["MultipleStreaminfo", "MissingStreaminfo"]:
         sites = error_sites(F, err)
